@@ -811,7 +811,18 @@ pub fn dispatch(r: &mut Recorder, c: &Value) {
     match c["k"].as_str().unwrap_or("") {
         "parse" => {
             let toks = unbytes_list(&c["toks"]);
-            let input = join(&toks);
+            // "seps" (optional): the separator byte in front of token 2, 3, ... ('-' when absent)
+            let input = match c.get("seps").and_then(|x| x.as_array()) {
+                Some(seps) => {
+                    let mut v = Vec::new();
+                    for (i, t) in toks.iter().enumerate() {
+                        if i > 0 { v.push(seps.get(i - 1).and_then(|b| b.as_u64()).unwrap_or(45) as u8); }
+                        v.extend_from_slice(t);
+                    }
+                    v
+                }
+                None => join(&toks),
+            };
             if let Some(li) = c.get("li") {
                 check_li(r, &input, li);
             }
